@@ -131,6 +131,9 @@ def jsonable(x):
 
 
 def run_check(modname, tier, seed, jobs=None):
+    from vf.engine import native
+
+    native.install()  # performance only (recycles the interpreter's 16 KiB frame-stack blocks; workers inherit it)
     mod = importlib.import_module(modname)
     pid = mod.ID
     t0 = time.time()
